@@ -28,7 +28,9 @@ LIM = {"quick": dict(N=8, hops=2, hxs=(0, 7)),
 def bounds(tier):
   d = dict(LIM[tier])
   d["meaning"] = ("N = max states l+a+b+j1+j2+j3 (l<=3 trunk, a<=4 source branch, b<=5 target branch, each init hop <=5 levels), "
-                  "hops = consecutive initial transitions, hxs = bitmasks of entry/exit/init left implicit; both pass modes")
+                  "hops = consecutive initial transitions, hxs = bitmasks of entry/exit/init left implicit; both pass modes; "
+                  "deep narrow charts (h_deep): target chain of up to B states, two chained initial transitions of up to J levels each, N states in all")
+  d["deep"] = dict(DEEP[tier])
   return d
 
 
@@ -85,6 +87,34 @@ Family(globals(), "h_step",
        params=[("l", 0, 3), ("a", 1, 4), ("b", 0, 5), ("k", 0, 6), ("tsel", 0, 11),
                ("j1", 0, 5), ("j2", 0, 5), ("j3", 0, 5), ("pm", 0, 1), ("hx", 0, 7)],
        pre=pre_step, case=case_step, split=["l", "a", "pm", "hx"], tiers=LIM)
+
+
+# ---- deep, narrow charts: the processor's path buffers start with three slots and grow; nesting far beyond that, one chain per branch --------
+DEEP = {"quick": dict(B=10, J=5, N=16), "thorough": dict(B=13, J=7, N=22)}
+
+
+def pre_deep(v, lim):
+  if v["b"] > lim["B"] or v["j1"] > lim["J"] or v["j2"] > lim["J"]:
+    return False
+  if v["j2"] > 0 and v["j1"] == 0:
+    return False
+  if 2 + v["b"] + v["j1"] + v["j2"] > lim["N"]:
+    return False
+  if v["up"] > v["b"]:
+    return False
+  return True
+
+
+def case_deep(b, up, j1, j2, pm):
+  """trunk s0, source s1 (child of s0), target branch: a chain of b states below s0; the source transitions to the state `up` levels above the
+  end of that chain (b == 0: to the trunk itself); the target's initial transition goes j1 levels down a further chain, the state reached
+  there j2 levels further"""
+  tsel = (2 + b - 1 - up) if b > 0 else 0
+  return case_step(1, 1, b, 0, tsel, j1, j2, 0, pm, 0)
+
+
+Family(globals(), "h_deep", params=[("b", 0, 13), ("up", 0, 2), ("j1", 0, 7), ("j2", 0, 7), ("pm", 0, 1)],
+       pre=pre_deep, case=case_deep, split=["pm", "up"], tiers=DEEP)
 
 
 def set_tier(tier):
